@@ -622,7 +622,7 @@ func driveIter(hd *handle, bit view.BitIter, el view.ElemIter, pause int, betwee
 	// wrong component after it reported missing data); the run also ends at the third end report
 	post := -1
 	calls := uint64(0)
-	for steps := 0; steps < 100000; steps++ {
+	for steps := 0; steps < 400000; steps++ {
 		if post == 0 {
 			return sb.String()
 		}
